@@ -7,8 +7,9 @@ from framework import graph_replay
 CPEND = {"begin": "pre:mark", "enq_lock": "pre:lock", "enq_after": "post:unlock", "stop_lock": "pre:lock",
          "stop_after": "post:unlock", "stop_join": "pre:join", "done": "done",
          "start": "pre:start", "loop_lock": "pre:lock", "waiting": "pre:cond", "job_run": "post:unlock",
-         "exit_after": "post:unlock"}
-JST = {"new": "pending", "queued": "pending", "dropped": "pending", "running": "running", "ran": "ran", "cancelled": "cancelled"}
+         "exit_after": "post:unlock", "aw0": "pre:mark", "awb": "pre:mark", "rv_mark": "pre:mark", "rs_enq_lock": "pre:lock",
+         "rs_enq_after": "post:unlock"}
+JST = {"new": "pending", "queued": "pending", "dropped": "pending", "waiting": "pending", "running": "running", "ran": "ran", "cancelled": "cancelled"}
 
 
 def as_map(v):
@@ -47,6 +48,13 @@ def tla_seq(xs):
     return "<<" + ", ".join('"%s"' % x for x in xs) + ">>"
 
 
+# co_await pool(future): resolved before / between await_ready() and the subscription / after it, by the client or by
+# a worker job, against stop()
+SCRIPTS_AW = [
+    (["rvj", "aw", "stop"], 1), (["aw", "rv", "stop"], 1), (["rvj", "aw", "det", "stop"], 2), (["aw", "co", "rv", "stop"], 2),
+]
+SCRIPTS_AW_MORE = [(["aw", "stop", "rv"], 1), (["rvj", "rvj", "aw", "aw", "stop"], 2), (["aw", "wst", "rv"], 2), (["rvj", "aw", "fn", "stop"], 3),
+                   (["aw", "aw", "rv", "rv", "stop"], 2)]
 SCRIPTS_QUICK = [
     (["co", "fn", "stop"], 1), (["det", "asy", "stop"], 1), (["co", "stop", "fn", "co"], 1),
     (["fn", "wst", "co"], 1), (["co", "wst", "fn", "stop"], 2), (["det", "co", "stop", "stop"], 2),
@@ -83,11 +91,12 @@ def run(ctx):
     # resume(suspend_point): the closure holds a bare coroutine handle and has no cancel path.  The
     # specification mirrors that ("dropped"); the replay (cfg without RunOrCancelOnce) confirms that the real
     # code behaves as modelled, and TLC then reports the property violation on the model: a known finding.
-    for k, (script, nw) in enumerate([(["res", "stop"], 1), (["det", "stop", "res"], 1)]):
+    for k, (script, nw) in enumerate([(["res", "stop"], 1), (["det", "stop", "res"], 1)] + SCRIPTS_AW + ([] if ctx.quick else SCRIPTS_AW_MORE)):
         defs = {"Script": tla_seq(script), "WOrder": tla_seq(["w%d" % (i + 1) for i in range(nw)])}
         hdr = {"script": script, "workers": nw}
         graph_replay(ctx, "ThreadPool", "ThreadPool", "ThreadPool_nodrop.cfg", "r%d" % k, rp, proj,
-                     header_fn=lambda i, st0, hdr=hdr: hdr, defs=defs, max_paths=400, tlc_kw={"workers": 4})
+                     header_fn=lambda i, st0, hdr=hdr: hdr, defs=defs, max_paths=400 if ctx.quick else 5000, tlc_kw={"workers": 4},
+                     must_take=["CAwReady", "CAwSubscribe"] if "aw" in script else None)
         res = ctx.tlc("ThreadPool", "ThreadPool", os.path.join(vlib.VERIF, "spec/ThreadPool/ThreadPool_base.cfg"),
                       "rv%d" % k, defs=defs, workers=4)
         if res.violation:
